@@ -522,6 +522,8 @@ impl<const H: usize> Reader<H> {
 
         // Sync to ensure durability
         self.file.sync_data()?;
+        #[cfg(feature = "verif")]
+        crate::verif::point("fsync", crate::verif::fd_of(&self.file), offset);
 
         Ok(true)
     }
